@@ -271,6 +271,27 @@ func vRunCase3(t *testing.T, c vCase) (msg string) {
 				}
 			}
 		}
+	case "equal-points":
+		// A = x1||y1, B = x2||y2 (affine, hex): Equal must agree with point equality in every representation and order
+		a, b := vHex(c.A), vHex(c.B)
+		p1 := vPt{x: new(big.Int).SetBytes(a[:32]), y: new(big.Int).SetBytes(a[32:])}
+		p2 := vPt{x: new(big.Int).SetBytes(b[:32]), y: new(big.Int).SetBytes(b[32:])}
+		for _, sc := range [][2]int64{{1, 1}, {3, 5}, {1, 9}} {
+			e, f := vElementOf(p1, big.NewInt(sc[0])), vElementOf(p2, big.NewInt(sc[1]))
+			if _, ok := vPointOf(e); !ok {
+				return "bad witness: first point not on the curve"
+			}
+			if _, ok := vPointOf(f); !ok {
+				return "bad witness: second point not on the curve"
+			}
+			want := 0
+			if vSame(p1, p2) {
+				want = 1
+			}
+			if e.Equal(f) != want || f.Equal(e) != want {
+				return "Equal(" + p1.String() + ", " + p2.String() + ") = " + itoa(e.Equal(f)) + "/" + itoa(f.Equal(e)) + ", want " + itoa(want)
+			}
+		}
 	case "identity-producers":
 		// every way of producing the identity, on receivers in every prior state incl. the zero value of the type
 		g := vG()
